@@ -40,13 +40,20 @@ def exec_case(case: dict) -> dict:
 
 
 def gen_cases(seed: int, n: int, *, nphases=4, watch_p=0.0, features=None, nworkers=5, cfgs=None,
-              prefix="g", user_edits=False, targets=False) -> list[dict]:
+              prefix="g", user_edits=False, targets=False, during=False) -> list[dict]:
     cases = []
     for i in range(n):
         g = Gen(seed * 100003 + i, nworkers=nworkers, features=features)
         proj = g.project()
         hist = g.history(proj, nphases=nphases, watch_p=watch_p, cfgs=cfgs, user_edits=user_edits,
                          targets=targets)
+        if during:
+            # external modifications of sources while a build is running
+            srcs = [p for p, v in proj["sources"].items() if not p.endswith(".py") and len(v) > 1]
+            for ph in hist:
+                if srcs and g.rng.random() < 0.5:
+                    p = g.rng.choice(srcs)
+                    ph["during"] = [[g.rng.randrange(3, 70), ["set", p, g.rng.choice(proj["sources"][p])]]]
         cases.append({"tid": f"{prefix}{seed}-{i}", "project": proj, "phases": hist})
     return cases
 
